@@ -25,9 +25,6 @@ def tyOfName (u : UC) (name : Text) : Option Ty := Ty.all.find? (fun t => t.char
 
 /-! ### printing -/
 
-/-- `v.replace("'", "''")` -/
-def escapeQ (s : Text) : Text := s.flatMap (fun c => if c = '\'' then ['\'', '\''] else [c])
-
 /-- `'%s' % uuid.UUID(int=n)`: 32 lower-case hex digits grouped 8-4-4-4-12 -/
 def guidBody (n : Nat) : Text :=
   let h := (fixedDigits 16 32 n).map hexChar
@@ -85,12 +82,6 @@ def printValue (t : Ty) : Option Val → Option Text
   | none => (nullOf t).bind (fmtValue t)
 
 /-! ### reading -/
-
-/-- `value[1:-1].replace("''", "'")` (after the slicing) -/
-def unescapeQ : Text → Text
-  | [] => []
-  | [c] => [c]
-  | c :: d :: rest => if c = '\'' ∧ d = '\'' then '\'' :: unescapeQ rest else c :: unescapeQ (d :: rest)
 
 /-- `value.isdigit()` on a token text (only NUMBER tokens qualify: ASCII digits) -/
 def isDigitText (v : Text) : Bool := !v.isEmpty && v.all isAsciiDigit
